@@ -475,6 +475,8 @@ type docGen struct {
 	// composite keys already selected per scope (to control merging)
 	budget   int
 	building map[string]bool
+	// dataKeyUsed: some selection of the document has the response key "data" already
+	dataKeyUsed bool
 }
 
 func (g *docGen) newVar(tr *hx.TRef, val hx.Val, withDefault bool) string {
@@ -694,6 +696,10 @@ func (g *docGen) genSels(tn string, depth int, label string) []*hx.Sel {
 				s.Alias = fmt.Sprintf("k%d", g.nArg)
 			} else if rapid.IntRange(0, 3).Draw(t, lab+"alias") == 0 {
 				s.Alias = rapid.SampledFrom([]string{"x_", "y_"}).Draw(t, lab+"ap") + fd.Name
+				if !g.dataKeyUsed && rapid.IntRange(0, 7).Draw(t, lab+"dataKey") == 0 {
+					// (once per document) a response key that is also the name of an envelope member
+					s.Alias, g.dataKeyUsed = "data", true
+				}
 			}
 			s.Dirs = g.genDirs(lab + "d")
 			if comp {
